@@ -266,7 +266,10 @@ fn analyse(ctx: &Context, owners: &[Owner], outs: &[u8], cap_bits: u32, input_al
             enumerated.push((ek.clone(), d, u.clone()));
         }
     }
-    for &obs in observers {
+    // without fixed entries one sweep serves all observers; with them each observer has its own partition
+    let obs_groups: Vec<Vec<usize>> = if fix_known.is_some() { observers.iter().map(|o| vec![*o]).collect() } else { vec![observers.to_vec()] };
+    for group in obs_groups.iter() {
+        let obs = group[0];
         // entries the observer can compute itself
         let (known, unknown): (Vec<_>, Vec<_>) = enumerated.iter().cloned().partition(|e| fix_known.is_some() && e.2.contains(&obs));
         let known_settings: Vec<Option<u8>> = match fix_known {
@@ -280,6 +283,12 @@ fn analyse(ctx: &Context, owners: &[Owner], outs: &[u8], cap_bits: u32, input_al
         for _ in shared_idx.iter() {
             bits += 2.0 * (doms[0].len() as f64).log2();
         }
+        if std::env::var("VERIF_DRY").is_ok() {
+            let n_inputs: f64 = doms.iter().map(|d| d.len() as f64).product();
+            oc.executions += (2f64.powf(bits) * n_inputs * known_settings.len() as f64) as u64;
+            oc.tapes = 2f64.powf(bits) as u64;
+            continue;
+        }
         if bits > cap_bits as f64 {
             oc.skipped = Some(format!("tape space 2^{:.0} above the cap 2^{}", bits, cap_bits));
             return oc;
@@ -287,12 +296,35 @@ fn analyse(ctx: &Context, owners: &[Owner], outs: &[u8], cap_bits: u32, input_al
         for ks in known_settings.iter() {
             // per input assignment: multiset of views
             let n_in = types.len();
-            let mut in_idx = vec![0usize; n_in];
-            let mut results: Vec<(Vec<usize>, Option<Vec<u8>>, HashMap<u128, u32>)> = vec![];
-            loop {
+            // all input assignments (mixed radix), processed in parallel, merged in enumeration order
+            let mut all_idx: Vec<Vec<usize>> = vec![];
+            {
+                let mut in_idx = vec![0usize; n_in];
+                loop {
+                    all_idx.push(in_idx.clone());
+                    let mut carry = true;
+                    for i in 0..n_in {
+                        if carry {
+                            in_idx[i] += 1;
+                            if in_idx[i] == doms[i].len() {
+                                in_idx[i] = 0;
+                            } else {
+                                carry = false;
+                            }
+                        }
+                    }
+                    if carry {
+                        break;
+                    }
+                }
+            }
+            let per_input: Vec<(Vec<usize>, Vec<Option<Vec<u8>>>, Vec<HashMap<u128, u32>>, u64)> = all_idx
+                .par_iter()
+                .map(|in_idx| {
+                    let mut execs = 0u64;
                 let plain: Vec<Value> = (0..n_in).map(|i| doms[i][in_idx[i]].clone()).collect();
-                let mut multiset: HashMap<u128, u32> = HashMap::new();
-                let mut obs_out: Option<Vec<u8>> = None;
+                let mut multiset: Vec<HashMap<u128, u32>> = vec![HashMap::new(); group.len()];
+                let mut obs_out: Vec<Option<Vec<u8>>> = vec![None; group.len()];
                 // enumerate tapes
                 let mut t_idx = vec![0usize; unknown.len()];
                 let mut sh_idx = vec![0usize; shared_idx.len() * 2];
@@ -345,17 +377,19 @@ fn analyse(ctx: &Context, owners: &[Owner], outs: &[u8], cap_bits: u32, input_al
                     let mut oracle = Scripted { table: &table, record: None, unsupported: false };
                     let mut evs = [new_eval(1), new_eval(2), new_eval(3)];
                     let run = run_three(&plan, &pi, &mut evs, &mut oracle);
-                    oc.executions += 1;
-                    *multiset.entry(view_hash(&run.vals[obs])).or_insert(0) += 1;
-                    if obs_out.is_none() {
-                        let mut k = vec![];
-                        if outs.contains(&(obs as u8)) {
-                            match run.vals[obs][plan.output].val() {
-                                Some(v) => vals::key(&v, &mut k),
-                                None => k.push(0xFD),
+                    execs += 1;
+                    for (gi, &ob) in group.iter().enumerate() {
+                        *multiset[gi].entry(view_hash(&run.vals[ob])).or_insert(0) += 1;
+                        if obs_out[gi].is_none() {
+                            let mut k = vec![];
+                            if outs.contains(&(ob as u8)) {
+                                match run.vals[ob][plan.output].val() {
+                                    Some(v) => vals::key(&v, &mut k),
+                                    None => k.push(0xFD),
+                                }
                             }
+                            obs_out[gi] = Some(k);
                         }
-                        obs_out = Some(k);
                     }
                     // next tape
                     let mut carry = true;
@@ -385,35 +419,28 @@ fn analyse(ctx: &Context, owners: &[Owner], outs: &[u8], cap_bits: u32, input_al
                         break;
                     }
                 }
-                oc.tapes = multiset.values().map(|c| *c as u64).sum();
-                oc.distinct_views += multiset.len() as u64;
-                results.push((in_idx.clone(), obs_out, multiset));
-                // next input assignment
-                let mut carry = true;
-                for i in 0..n_in {
-                    if carry {
-                        in_idx[i] += 1;
-                        if in_idx[i] == doms[i].len() {
-                            in_idx[i] = 0;
-                        } else {
-                            carry = false;
-                        }
-                    }
-                }
-                if carry {
-                    break;
-                }
+                    (in_idx.clone(), obs_out, multiset, execs)
+                })
+                .collect();
+            let mut results: Vec<(Vec<usize>, Vec<Option<Vec<u8>>>, Vec<HashMap<u128, u32>>)> = vec![];
+            for (ii, oo, ms, ex) in per_input {
+                oc.executions += ex;
+                oc.tapes = ms[0].values().map(|c| *c as u64).sum();
+                oc.distinct_views += ms.iter().map(|m| m.len() as u64).sum::<u64>();
+                results.push((ii, oo, ms));
             }
             // compare: same own inputs (owned by observer or public) and same own output => same view multiset
-            let own: Vec<usize> = (0..n_in).filter(|i| owners[*i] == Owner::P(obs as u8) || owners[*i] == Owner::Public).collect();
-            for a in 0..results.len() {
-                for b in (a + 1)..results.len() {
-                    if own.iter().all(|i| results[a].0[*i] == results[b].0[*i]) && results[a].1 == results[b].1 {
-                        oc.groups_compared += 1;
-                        if results[a].2 != results[b].2 && oc.leak.is_none() {
-                            oc.leak = Some((obs, format!(
-                                "observer {}: inputs {:?} and {:?} (indices into each input's domain) give the same own inputs/output but different view distributions over {} tapes ({} vs {} distinct views)",
-                                obs, results[a].0, results[b].0, oc.tapes, results[a].2.len(), results[b].2.len())));
+            for (gi, &obs) in group.iter().enumerate() {
+                let own: Vec<usize> = (0..n_in).filter(|i| owners[*i] == Owner::P(obs as u8) || owners[*i] == Owner::Public).collect();
+                for a in 0..results.len() {
+                    for b in (a + 1)..results.len() {
+                        if own.iter().all(|i| results[a].0[*i] == results[b].0[*i]) && results[a].1[gi] == results[b].1[gi] {
+                            oc.groups_compared += 1;
+                            if results[a].2[gi] != results[b].2[gi] && oc.leak.is_none() {
+                                oc.leak = Some((obs, format!(
+                                    "observer {}: inputs {:?} and {:?} (indices into each input's domain) give the same own inputs/output but different view distributions over {} tapes ({} vs {} distinct views)",
+                                    obs, results[a].0, results[b].0, oc.tapes, results[a].2[gi].len(), results[b].2[gi].len())));
+                            }
                         }
                     }
                 }
@@ -442,7 +469,35 @@ pub fn run(r: &Report) -> i32 {
     let mut tasks: Vec<(usize, bool, Vec<Owner>, Vec<u8>)> = vec![];
     let fams = families(thorough);
     let fams8 = families_u8();
+    use Owner::*;
     for (fi, f) in fams.iter().enumerate() {
+        // quick: 1- and 2-input families with the full owner x output cross; 3-input families on a few configurations
+        let small: Vec<(Vec<Owner>, Vec<u8>)> = vec![
+            (vec![P(0), P(1), P(2)], vec![0]),
+            (vec![P(1), P(1), P(0)], vec![]),
+            (vec![P(2), Public, P(0)], vec![1, 2]),
+            (vec![Shared, P(0), P(1)], vec![2]),
+        ];
+        if f.n_inputs == 3 && !thorough {
+            let k = if f.name == "(x*y)*z" { 1 } else { 3 };
+            for (ov, outs) in small.into_iter().take(k) {
+                tasks.push((fi, false, ov, outs));
+            }
+            continue;
+        }
+        if thorough && (f.n_inputs == 3 || f.name.contains("2")) {
+            // large tape spaces: a covering set of owner vectors x 4 output subsets (fewer for the 2^18-tape families)
+            let ovs = super::c01::covering_owners(f.n_inputs);
+            let big = f.name == "(x2*y2)[0]" || f.name == "x2*y2 (array out)";
+            let ovs: Vec<Vec<Owner>> = if big { vec![ovs[0].clone(), ovs[3].clone()] } else if f.name == "(x*y)*z" || f.name.contains("2") { ovs } else { owner_subset(3, true) };
+            let outs_set: Vec<Vec<u8>> = if big { vec![vec![], vec![2]] } else { vec![vec![], vec![0], vec![1, 2], vec![0, 1, 2]] };
+            for ov in ovs {
+                for outs in outs_set.iter() {
+                    tasks.push((fi, false, ov.clone(), outs.clone()));
+                }
+            }
+            continue;
+        }
         for ov in owner_subset(f.n_inputs, thorough) {
             for outs in mpcx::output_subsets() {
                 tasks.push((fi, false, ov.clone(), outs));
@@ -450,11 +505,21 @@ pub fn run(r: &Report) -> i32 {
         }
     }
     for (fi, f) in fams8.iter().enumerate() {
+        if f.n_inputs == 2 {
+            // two unknown mask bytes per observer: 65536 tapes per input pair
+            if !thorough {
+                continue;
+            }
+            for (ov, outs) in [(vec![P(0), P(1)], vec![2u8]), (vec![P(2), P(0)], vec![])] {
+                tasks.push((fi, true, ov, outs));
+            }
+            continue;
+        }
         for ov in mpcx::owner_vectors(f.n_inputs) {
             if ov.contains(&Owner::Shared) {
                 continue;
             }
-            for outs in if thorough { mpcx::output_subsets() } else { vec![vec![], vec![0], vec![1, 2]] } {
+            for outs in mpcx::output_subsets() {
                 tasks.push((fi, true, ov.clone(), outs));
             }
         }
@@ -465,7 +530,7 @@ pub fn run(r: &Report) -> i32 {
         .map(|(fi, is8, ov, outs)| {
             if *is8 {
                 let ctx = build_ctx(&fams8[*fi]);
-                let alpha: Vec<u128> = if thorough { vec![0, 1, 127, 128, 255] } else { vec![0, 1, 200] };
+                let alpha: Vec<u128> = if fams8[*fi].n_inputs == 2 { vec![0, 1, 200] } else { vec![0, 1, 127, 128, 255] };
                 analyse(&ctx, ov, outs, cap, Some(&alpha), &[0, 1, 2], Some(&[0x00, 0x5B, 0xFF]))
             } else {
                 let ctx = build_ctx(&fams[*fi]);
@@ -505,6 +570,19 @@ pub fn run(r: &Report) -> i32 {
         if r.want_sample() && oc.real_entries > 3 {
             r.sample(json!({"family": name, "owners": super::c01::owners_json(&t.2), "outs": t.3, "real_key_prf_entries": oc.real_entries,
                 "tapes_per_input": oc.tapes, "executions": oc.executions, "groups_compared": oc.groups_compared}));
+        }
+    }
+    if std::env::var("VERIF_DRY").is_ok() {
+        let mut per: BTreeMap<String, (u64, u64, u64)> = BTreeMap::new();
+        for (t, oc) in tasks.iter().zip(outcomes.iter()) {
+            let name = if t.1 { fams8[t.0].name } else { fams[t.0].name };
+            let e = per.entry(name.to_string()).or_insert((0, 0, 0));
+            e.0 += oc.executions;
+            e.1 = e.1.max(oc.tapes);
+            e.2 += 1;
+        }
+        for (k, v) in per {
+            eprintln!("{:20} configs {:5} executions {:12} max tapes {}", k, v.2, v.0, v.1);
         }
     }
     conformance(r);
